@@ -1,4 +1,5 @@
 import SvModel.Props.C15
+import SvModel.Props.C13
 /-!
 # C17 — the packrat memo table is a pure optimisation (proved part)
 
@@ -65,5 +66,17 @@ theorem C17_hit_replays_failure (g : Grammar) (inp : Input) (fuel f pos : Nat) (
 theorem C17_insert_keeps_others (cap : Option Nat) (m : Memo) (k k' : MKey) (v x : MVal)
     (h : (m.insert cap k v).find? k' = some x) : (k = k' ∧ x = v) ∨ m.find? k' = some x :=
   find_insert cap m k k' v x h
+
+
+/-- **what a memo hit skips is state-neutral, with exactly two exceptions.** A hit returns the stored value without running the body, so the
+    result can only be independent of the capacity if running a body leaves the thread-local cells as it found them. For the directive depth this
+    holds for every production on every outcome (`C12_directive_depth_preserved`: no production contains a bare begin/end_directive); for the
+    keyword-version stack every change is a scoped `kwScope` (restored on success and on failure) except in `version_specifier` (the push of
+    `` `begin_keywords ``) and `endkeywords_directive` (the pop) — the two productions behind the known finding D11. Any other production that
+    pushes or pops without restoring (e.g. a `?` between the push and the pop) breaks this obligation. -/
+theorem C17_skipped_bodies_state_neutral :
+    (allProdsL.zipIdx.all (fun p => !hasKwAtom p.1.body || p.2 == idx_version_specifier || p.2 == idx_endkeywords_directive)) = true ∧
+    allProdsL.all (fun p => DirFree p.body) = true :=
+  ⟨C13_kw_atoms_confined, grammar_dirfree_all⟩
 
 end Sv
